@@ -2,10 +2,13 @@ package checks
 
 import (
 	"crypto/sha1"
+	"errors"
 	"fmt"
 	"strings"
 	"sync"
 	"time"
+
+	"github.com/vx-labs/mqtt-protocol/packet"
 
 	"wv/fw"
 	"wv/kit"
@@ -281,6 +284,10 @@ func runC02(c *fw.Ctx) {
 	c02Fanout(c, base)
 	// ---- E: overlapping QoS 2 deliveries (PUBCOMP withheld) and retained publishes with empty payload
 	c02Overlap(c, base)
+	// ---- G: PUBREL after the inbound handshake timed out; the publisher node's own log failing while
+	// the forwarding to another node works
+	c02LatePubRel(c, base)
+	c02LocalLogFault(c, base)
 	c.Floor("acked_deliveries_checked", 500)
 }
 
@@ -602,4 +609,143 @@ func c02Fanout(c *fw.Ctx, base string) {
 			c.Observe("fanout_scenarios", 1)
 		}()
 	}
+}
+
+// c02LatePubRel: an inbound QoS 2 publish whose PUBREL comes after the handshake timed out. Whatever
+// the broker answers, a PUBCOMP means "acknowledged": the message must then reach the subscriber.
+func c02LatePubRel(c *fw.Ctx, base string) {
+	fw.LogCase("C02 late-pubrel")
+	cl := kit.NewCluster(base + "/late-pubrel")
+	defer cl.Close()
+	n, err := cl.AddNode(kit.NodeOpts{ID: 1})
+	if err != nil {
+		c.Inconclusive("cannot start node: " + err.Error())
+		return
+	}
+	sub, err := n.MustConnect(kit.ConnectOpts{ClientID: "s", KeepAlive: 600, Clean: true})
+	if err != nil {
+		c.Inconclusive("connect: " + err.Error())
+		return
+	}
+	defer sub.Close()
+	if err := sub.Subscribe([]string{"c02l/#"}, []int{1}); err != nil {
+		c.Inconclusive("subscribe: " + err.Error())
+		return
+	}
+	pub, err := n.MustConnect(kit.ConnectOpts{ClientID: "p", KeepAlive: 600, Clean: true})
+	if err != nil {
+		c.Inconclusive("connect: " + err.Error())
+		return
+	}
+	defer pub.Close()
+	far := time.Now()
+	sent := []*c02Sent{}
+	for i := 0; i < c.Pick(6, 40); i++ {
+		s := &c02Sent{tag: fmt.Sprintf("late-%d", i), topic: "c02l/t", qos: 2}
+		pl := c02Payload(s.tag, 10)
+		s.sum, s.size = sha1.Sum(pl), len(pl)
+		id := 100 + i
+		from := pub.NumEvents()
+		pub.Send(kit.EncPublish(s.topic, pl, 2, false, false, id))
+		if _, _, err := pub.WaitFor(from, kit.DefaultWait, func(e kit.Event) bool { return e.Pkt.Type == kit.PUBREC && e.Pkt.ID == id }); err != nil {
+			c.Inconclusive("late-pubrel: no PUBREC: " + err.Error())
+			return
+		}
+		late := i%2 == 0
+		if late {
+			// the handshake times out: every armed deadline is in the past at this sweep
+			far = far.Add(time.Hour)
+			n.Ack.Expire(far)
+		}
+		from = pub.NumEvents()
+		pub.Send(kit.EncPubRel(id))
+		if ok, _ := pub.Ping(kit.DefaultWait); !ok {
+			c.Inconclusive("late-pubrel: no PINGRESP")
+			return
+		}
+		for _, e := range pub.Events()[from:] {
+			if e.Pkt.Type == kit.PUBCOMP && e.Pkt.ID == id {
+				s.acked = true
+			}
+		}
+		if late && s.acked {
+			c.Observe("late_pubrels_acknowledged", 1)
+		}
+		if late {
+			c.Observe("late_pubrels_sent", 1)
+		}
+		sent = append(sent, s)
+	}
+	if !c02Barrier(c, "late-pubrel", pub, []*kit.Client{sub}, "c02l/end", 1) {
+		return
+	}
+	c02Verify(c, "late-pubrel", []*kit.Client{sub}, []int{1}, sent, "lost:acknowledged-after-handshake-timeout")
+	c.Case("late-pubrel", true)
+}
+
+// c02LocalLogFault: subscribers on two nodes, publisher on node 1; for a while node 1's own log rejects
+// writes while the forwarding to node 2 works. Whatever is acknowledged in that window must still reach
+// the subscriber on node 1.
+func c02LocalLogFault(c *fw.Ctx, base string) {
+	fw.LogCase("C02 local-log-fault")
+	cl := kit.NewCluster(base + "/local-log-fault")
+	defer cl.Close()
+	n1, err := cl.AddNode(kit.NodeOpts{ID: 1})
+	if err != nil {
+		c.Inconclusive("cannot start node: " + err.Error())
+		return
+	}
+	n2, err := cl.AddNode(kit.NodeOpts{ID: 2})
+	if err != nil {
+		c.Inconclusive("cannot start node: " + err.Error())
+		return
+	}
+	subs := []*kit.Client{}
+	for i, n := range []*kit.Node{n1, n2} {
+		sc, err := n.MustConnect(kit.ConnectOpts{ClientID: fmt.Sprintf("s%d", i), KeepAlive: 600, Clean: true})
+		if err != nil {
+			c.Inconclusive("connect: " + err.Error())
+			return
+		}
+		defer sc.Close()
+		if err := sc.Subscribe([]string{"c02g/#"}, []int{1}); err != nil {
+			c.Inconclusive("subscribe: " + err.Error())
+			return
+		}
+		subs = append(subs, sc)
+	}
+	cl.Quiesce()
+	pub, err := n1.MustConnect(kit.ConnectOpts{ClientID: "p", KeepAlive: 600, Clean: true})
+	if err != nil {
+		c.Inconclusive("connect: " + err.Error())
+		return
+	}
+	defer pub.Close()
+	sent := []*c02Sent{}
+	total := c.Pick(60, 300)
+	for i := 0; i < total; i++ {
+		faulty := i >= total/3 && i < 2*total/3
+		if faulty {
+			n1.Log.SetFail(func(*packet.Publish, int) error { return errors.New("injected: no space left on device") })
+		} else {
+			n1.Log.SetFail(nil)
+		}
+		s := &c02Sent{tag: fmt.Sprintf("fault-%d", i), topic: "c02g/t", qos: 1}
+		pl := c02Payload(s.tag, 10)
+		s.sum, s.size = sha1.Sum(pl), len(pl)
+		s.acked, _ = pub.Publish(s.topic, pl, 1, false, map[bool]time.Duration{true: 120 * time.Millisecond, false: kit.DefaultWait}[faulty])
+		if faulty {
+			c.Observe("publishes_during_local_log_fault", 1)
+			if s.acked {
+				c.Observe("publishes_acknowledged_during_local_log_fault", 1)
+			}
+		}
+		sent = append(sent, s)
+	}
+	n1.Log.SetFail(nil)
+	if !c02Barrier(c, "local-log-fault", pub, subs, "c02g/end", 1) {
+		return
+	}
+	c02Verify(c, "local-log-fault", subs, []int{1, 1}, sent, "lost:acknowledged-while-local-log-failed")
+	c.Case("local-log-fault", true)
 }
